@@ -29,11 +29,117 @@ def fresh_name(rng, old, same_length):
     return "renamed_%s_%d" % (rng.choice(["a", "bb", "ccc"]), rng.randrange(1000))
 
 
+def chain_project(rng):
+    """Hand-built import chains (main -> [top ->] mid -> lib) with `as` aliases below the root file: (files, sites) where a
+    site is (symbol, file, line, col0, col1) of an occurrence at which the symbol can be renamed."""
+    name = rng.choice(["delay", "wait", "tick", "blink", "fade"]) + str(rng.randrange(10))
+    alias = rng.choice([None, "lib_" + name, "al%d" % rng.randrange(9)])
+    other = "other%d" % rng.randrange(9)
+    lib = "%s: {\n    nop\n    rts\n}\n.const %s = 5\n" % (name, other)
+    use = alias or name
+    imp = '.import %s%s, %s from "lib.asm"\n' % (name, " as " + alias if alias else "", other)
+    mid = imp + "go: {\n    jsr %s\n    lda #<%s\n    ldx #%s\n    rts\n}\n" % (use, use, other)
+    how = rng.choice(["*", "go", "go as run", "* as m"])
+    call = {"*": "go", "go": "go", "go as run": "run", "* as m": "m.go"}[how]
+    files = {"lib.asm": lib, "mid.asm": mid}
+    if rng.random() < 0.5:
+        files["top.asm"] = '.import %s from "mid.asm"\nstart: {\n    jsr %s\n    rts\n}\n' % (how, call)
+        files["main.asm"] = '.import * from "top.asm"\n    jsr start\n    rts\n'
+        user = "top.asm"
+    else:
+        files["main.asm"] = '.import %s from "mid.asm"\n    jsr %s\n    rts\n' % (how, call)
+        user = "main.asm"
+    sites = [(name, "lib.asm", 0, 0, len(name)), (name, "mid.asm", 0, 8, 8 + len(name))]
+    if not alias:
+        sites += [(name, "mid.asm", 2, 8, 8 + len(name)), (name, "mid.asm", 3, 10, 10 + len(name))]
+    sites += [(other, "lib.asm", 4, 7, 7 + len(other)), (other, "mid.asm", 4, 9, 9 + len(other)), ("go", "mid.asm", 1, 0, 2)]
+    if how in ("*", "go"):
+        ucall = files[user].split("\n")[2 if user == "top.asm" else 1]
+        sites.append(("go", user, 2 if user == "top.asm" else 1, ucall.index("go"), ucall.index("go") + 2))
+    return files, sites, {"alias": alias, "how": how, "levels": len(files)}
+
+
+def chain_cases(acc, probe, rng, count):
+    """Renames through import chains: judged by meaning (the edited project assembles to the same bytes without diagnostics,
+    no edit has an empty text, the definition and the import statement carry the new name) and by the round trip."""
+    for _ in range(count):
+        files, sites, info = chain_project(rng)
+        pc = 0x2000
+        base = build_outcome(probe, files, pc)
+        if base[0] != "ok":
+            acc.inconc("import-chain project does not assemble: %r" % (base,))
+            continue
+        pr = L.Project(files, open_files=sorted(files))
+        try:
+            version = 2
+            for sym, f, ln, c0, c1 in sites:
+                for name in sorted(files):
+                    version += 1
+                    pr.srv.did_change(pr.path(name), files[name], version)
+                new = "zq" + "".join(rng.choice("abcdefghjkmnpqrstuvwxyz") for _ in range(max(1, len(sym) - 2)))
+                col = rng.randrange(c0, c1)
+                acc.evaluations += 1
+                w = {"files": files, "symbol": sym, "at": [f, ln, col], "new_name": new, "chain": info}
+                prep = pr.pos_request("textDocument/prepareRename", f, ln, col)
+                if "dead" in prep or "timeout" in prep:
+                    acc.violation("server-died|prepareRename|import-chain", "no answer", dict(w, response=prep))
+                    return
+                if not prep.get("result"):
+                    acc.count("chain.rename-not-offered")
+                    continue
+                resp = pr.pos_request("textDocument/rename", f, ln, col, {"newName": new})
+                w["response"] = resp
+                if "dead" in resp or "timeout" in resp:
+                    acc.violation("server-died|rename|import-chain", "no answer", w)
+                    return
+                changes = (resp.get("result") or {}).get("changes")
+                if not changes:
+                    acc.violation("offered-but-no-edit|import-chain", "prepareRename offered %s but rename returned nothing" % sym, w)
+                    continue
+                if any(not e["newText"] for edits in changes.values() for e in edits):
+                    acc.violation("empty-edit|import-chain", "rename of %s returns an edit whose new text is empty" % sym, w)
+                    continue
+                try:
+                    new_files = {name: apply_edits(files[name], changes.get(pr.uri(name), [])) for name in files}
+                except ValueError as e:
+                    acc.violation("malformed-edit|import-chain", str(e), w)
+                    continue
+                after = build_outcome(probe, new_files, pc)
+                if after != base:
+                    acc.violation("meaning-changed|import-chain|%s" % after[0], "after renaming %s to %s the project %s" % (
+                        sym, new, "assembles differently" if after[0] == "ok" else "has diagnostics: %s" % (after[1],)), dict(w, edited=new_files))
+                    continue
+                if sym in "".join(t for n_, t in new_files.items()).replace("lib_" + sym, "") and sym != "go":
+                    acc.violation("edit-set-incomplete|import-chain", "the old name %s is still there after the rename" % sym, dict(w, edited=new_files))
+                    continue
+                acc.count("chain.renames_preserving_bytes")
+                acc.nontriv("chain", files["mid.asm"], files["main.asm"], sym, f, ln)
+                acc.cover("chain_shapes", "%s/alias=%s/levels=%d" % (info["how"], bool(info["alias"]), info["levels"]))
+                if len(new) == len(sym):
+                    for name in sorted(files):
+                        version += 1
+                        pr.srv.did_change(pr.path(name), new_files[name], version)
+                    back = pr.pos_request("textDocument/rename", f, ln, col, {"newName": sym})
+                    ch2 = (back.get("result") or {}).get("changes") or {}
+                    try:
+                        restored = {name: apply_edits(new_files[name], ch2.get(pr.uri(name), [])) for name in files}
+                    except ValueError as e:
+                        acc.violation("malformed-edit|rename-back|import-chain", str(e), dict(w, response2=back))
+                        continue
+                    if restored != files:
+                        acc.violation("rename-back-does-not-restore|import-chain", "renaming %s back to %s does not restore the files" % (new, sym), dict(w, edited=new_files, restored=restored))
+                        continue
+                    acc.count("chain.round_trips_ok")
+        finally:
+            pr.close()
+
+
 def shard(idx, n, seed, tier, params):
     acc = Acc()
     probe = Probe()
     rng = rng_for(seed, "c15", idx)
     t_end = time.time() + params["budget"]
+    chain_cases(acc, probe, rng, max(1, params["chains"] // n))
     for i in range(params["programs"] // n):
         if time.time() > t_end:
             acc.count("budget_cut")
@@ -161,7 +267,7 @@ def shard(idx, n, seed, tier, params):
 
 def main(tier, seed):
     t0 = time.time()
-    params = {"programs": 4000 if tier == "quick" else 80000, "per_program": 6, "budget": 90 if tier == "quick" else 1500}
+    params = {"programs": 4000 if tier == "quick" else 80000, "chains": 64 if tier == "quick" else 1600, "per_program": 6, "budget": 90 if tier == "quick" else 1500}
     acc = run_sharded(shard, seed, tier, params)
     return finish(
         "C15", tier, seed, acc, t0,
@@ -170,6 +276,9 @@ def main(tier, seed):
              "the definition or a use; where a rename is offered, textDocument/rename with a fresh name must return edits at exactly the "
              "recorded occurrences of that symbol in all files, the edited project must assemble (real library) to identical bytes "
              "without diagnostics, and - with a same-length name - renaming back at the same position must restore every file byte for "
-             "byte. The buffers are re-sent before each request. Non-trivial = distinct rename whose result preserved the bytes.",
+             "byte. The buffers are re-sent before each request. In addition hand-built import chains (main -> [top ->] mid -> lib, specific "
+             "imports with and without `as` below the root file, re-exported through `*`, `* as`, specific and aliased imports) are "
+             "renamed at every occurrence and judged by meaning, non-empty edits and the round trip. Non-trivial = distinct rename "
+             "whose result preserved the bytes.",
         assumptions=["symbols with uses inside never-invoked macros or zero-iteration loops are not renamed by the check (the server cannot bind those uses)",
                      "new names are fresh; a name equal to one in an unrelated scope is not yet exercised"])
